@@ -15,7 +15,7 @@ solution (`complete_optimal`), `is_exact` is reported, and no value is reported 
 exists (`complete_infeasible`).  Configuration covered by the proof: plain multiset fringe
 (`SimpleFringe`), no threshold cache (`mustExplore = true`), no cutoff.
 Termination and the duplicate-free fringe: Props/C01t.lean, Props/C01b.lean.
-Stated, not proved (see the `def … : Prop` at the end): the cache (`CachePruneOk`). -/
+The cache and the dominance checker: Props/C09b.lean, Props/C10b.lean. -/
 set_option linter.unusedSectionVars false
 namespace Ddo.C01
 variable {S : Type} [DecidableEq S]
@@ -163,7 +163,8 @@ theorem infeasible_no_update (Phi : SubP S → EInt) (opt : Int) (Sol : List Dec
 /-! Termination and the duplicate-free fringe are theorems since the second proof stage:
     `Ddo.C01t.seq_terminates`, `Ddo.C01t.run_end_optimal`, `Ddo.C01t.good_terminates` (Props/C01t.lean) and
     `Ddo.C01b.process_inv_dedup`, `Ddo.C01b.process_inv_any` (Props/C01b.lean). -/
-/-- with a threshold cache: a popped node refused by `must_explore` is not needed (C09) -/
-def CachePruneOk : Prop := True
+/-! With a threshold cache: a popped node refused by `must_explore` is not needed — `Ddo.C09.cachePruneOk`, and the caching
+    solver's invariant `Ddo.C09.cacheRun_inv` / `caching_run_optimal` (Props/C09b.lean).  With the dominance checker:
+    `Ddo.C10.dominance_solver_optimal` (Props/C10b.lean). -/
 
 end Ddo.C01
